@@ -180,7 +180,7 @@ def gen_cfg(rng, combo=None, finite=None, n_max=12, allow_not_random=True, u=Non
         kw["f"] = rng.choice((0, 0, 2.0 ** -10, 0.125, 1.0, 100.0))
         kw["minsd"] = rng.choice((2.0 ** -20, 2.0 ** -10, 1.0, 100.0))
     if estim == "optimal_comparison":
-        kw["rate_error_2"] = rng.choice((2.0 ** -20, 2.0 ** -13, 2.0 ** -10, 2.0 ** -7, 2.0 ** -4, 0.25, 0.3125, 0, 0))  # 0: the Audit default
+        kw["rate_error_2"] = rng.choice((2.0 ** -20, 2.0 ** -13, 2.0 ** -10, 2.0 ** -7, 2.0 ** -4, 0.25, 0.3125, 0, 0, 2.0 ** -60, 5e-324, 2.0 ** -1000))  # 0: the Audit default; rates below the resolution of 1 - p
     if bet == "fixed_bet":
         kw["lam"] = (1 / u) * rng.choice((2.0 ** -10, 0.25, 0.5, 0.75, 1.0))
     if bet == "agrapa":
@@ -480,6 +480,31 @@ def gen_mean_reaches_u(rng, cfg):
     body = [u] * k + [0.0] * z
     rng.shuffle(body)
     return body + [u] * rng.randint(max(1, r - 3), r)
+
+
+def gen_exceed_by_ulps(rng, cfg):
+    """Finite population, u >= 1, t = 1/2: exactly representable draws whose running total passes N t by 2^-50 or 2^-51
+    (really passes it: every value is an exact double and the partial sums are exact), followed by one to three more
+    draws.  The null conditional mean is then negative but within the absolute tolerance the code uses for 'mean is 0'."""
+    if cfg["N"] == "inf" or cfg["u"] < 1:
+        return None
+    N = rng.choice((8, 10, 16, 20))
+    cfg["N"], cfg["t"] = N, 0.5
+    for k in ("N_warm", "int_dtype", "float_dtype"):
+        cfg.pop(k, None)
+    if "eta" in cfg["kw"] and not 0.5 < cfg["kw"]["eta"] < cfg["u"]:
+        cfg["kw"]["eta"] = (0.5 + cfg["u"]) / 2
+    tail = rng.randint(1, 3)
+    last = rng.choice((0.5, 0.25, 1.0))
+    need = N * 0.5 - last           # total of the body
+    n_body = N - tail - 1
+    ones = int(need)
+    if ones + (1 if need != ones else 0) > n_body:
+        return None
+    body = [1.0] * ones + ([need - ones] if need != ones else [])
+    body += [0.0] * (n_body - len(body))
+    rng.shuffle(body)
+    return body + [last + 2.0 ** -rng.choice((50, 51))] + [rng.choice((0.0, 0.0, 0.5)) for _ in range(tail)]
 
 
 def in_domain(cfg, x):
